@@ -679,8 +679,10 @@ theorem expLog_setStopPoint (s : State) (p : Int) : (setStopPoint s p).expLog = 
 
 theorem expLog_queueOrTrigger (s : State) (x : Proxy) : (queueOrTrigger s x).expLog = s.expLog := by
   unfold queueOrTrigger
-  simp only
-  split <;> rfl
+  split
+  · rfl
+  · simp only
+    split <;> rfl
 
 theorem expLog_trigger (g : Graph) (s : State) (p : Int) (n : String) : (trigger g s p n).expLog = s.expLog := by
   unfold trigger
